@@ -40,6 +40,9 @@ type adapter struct {
 	getAll    func() []any
 	getRes    func(string) []any
 	probe     func(t0 uint64, plan []preq) string
+	// family (optional) rewrites the rule's strategy/behaviour combination in place, keeping every other field: the
+	// successor of a rule in a later load is then of another family but statistic-compatible with it
+	family func(t *rapid.T, r any)
 }
 
 // curCase is the evidence case of the running property (set by runModule).
@@ -171,12 +174,17 @@ func flowAdapter() *adapter {
 			r := &flow.Rule{ID: fmt.Sprint(rapid.IntRange(0, 9).Draw(t, "id")), Resource: res,
 				Threshold:              rapid.SampledFrom([]float64{0, 1, 2, 5}).Draw(t, "thr"),
 				ControlBehavior:        flow.ControlBehavior(rapid.SampledFrom([]int{0, 0, 0, 1}).Draw(t, "cb")),
-				TokenCalculateStrategy: flow.TokenCalculateStrategy(rapid.SampledFrom([]int{0, 0, 0, 1}).Draw(t, "tcs")),
+				TokenCalculateStrategy: flow.TokenCalculateStrategy(rapid.SampledFrom([]int{0, 0, 0, 1, 2}).Draw(t, "tcs")),
 				MaxQueueingTimeMs:      uint32(rapid.SampledFrom([]int{0, 100}).Draw(t, "q")),
 				StatIntervalInMs:       uint32(rapid.SampledFrom([]int{0, 0, 1000, 3000, 700}).Draw(t, "iv")),
 				WarmUpPeriodSec:        uint32(rapid.IntRange(1, 3).Draw(t, "wp")), WarmUpColdFactor: uint32(rapid.SampledFrom([]int{0, 3, 3, 2}).Draw(t, "wc"))}
 			if rapid.IntRange(0, 4).Draw(t, "assoc") == 0 {
 				r.RelationStrategy, r.RefResource = flow.AssociatedResource, "b"
+			}
+			if r.TokenCalculateStrategy == flow.MemoryAdaptive { // a valid memory-adaptive rule (either control behaviour)
+				r.HighMemUsageThreshold = int64(rapid.IntRange(1, 2).Draw(t, "highThr"))
+				r.LowMemUsageThreshold = r.HighMemUsageThreshold + int64(rapid.IntRange(1, 3).Draw(t, "lowDelta"))
+				r.MemLowWaterMarkBytes, r.MemHighWaterMarkBytes = 1<<20, 1<<21
 			}
 			if r.WarmUpColdFactor == 0 && hx.Known("P12") {
 				r.WarmUpColdFactor = 3
@@ -206,6 +214,14 @@ func flowAdapter() *adapter {
 				r.TokenCalculateStrategy = flow.MemoryAdaptive // invalid: marks and thresholds unset
 			}
 			return r
+		},
+		family: func(t *rapid.T, r any) {
+			x := r.(*flow.Rule)
+			x.TokenCalculateStrategy = flow.TokenCalculateStrategy(rapid.IntRange(0, 2).Draw(t, "familyStrategy"))
+			x.ControlBehavior = flow.ControlBehavior(rapid.IntRange(0, 1).Draw(t, "familyBehaviour"))
+			if x.TokenCalculateStrategy == flow.MemoryAdaptive && x.LowMemUsageThreshold == 0 {
+				x.HighMemUsageThreshold, x.LowMemUsageThreshold, x.MemLowWaterMarkBytes, x.MemHighWaterMarkBytes = 1, 3, 1<<20, 1<<21
+			}
 		},
 		isNil: func(r any) bool { return r.(*flow.Rule) == nil },
 		valid: func(r any) bool {
